@@ -9,6 +9,20 @@ type command func(args []string) error
 
 var commands = map[string]command{}
 
+// scratchDir: one temporary directory per run (file-backed page buffers), removed when the command returns.
+var scratch string
+
+func scratchDir() string {
+	if scratch == "" {
+		d, err := os.MkdirTemp("", "vh-scratch-")
+		if err != nil {
+			panic(err)
+		}
+		scratch = d
+	}
+	return scratch
+}
+
 func main() {
 	if len(os.Args) < 2 {
 		fmt.Fprintln(os.Stderr, "usage: vh <command> [args]")
@@ -19,7 +33,11 @@ func main() {
 		fmt.Fprintf(os.Stderr, "vh: unknown command %q\n", os.Args[1])
 		os.Exit(2)
 	}
-	if err := cmd(os.Args[2:]); err != nil {
+	err := cmd(os.Args[2:])
+	if scratch != "" {
+		os.RemoveAll(scratch)
+	}
+	if err != nil {
 		fmt.Fprintf(os.Stderr, "vh %s: %v\n", os.Args[1], err)
 		os.Exit(2)
 	}
